@@ -127,6 +127,10 @@ CHECKS["C27"] = ("exploration", "deadlock / progress monitor: scripted server ho
     "1-3 subscriptions, 2-8 concurrent calls (repeated cancels / forgets, unknown ids) while a publish request is outstanding, a second wave during the reconnect or shutdown the outcome sets off; every call returns within 6000 heartbeats, the client settles Connected or Closed, with subscriptions known to both sides a PublishRequest reaches the server, a fresh subscription receives a notification, Close returns.",
     "heartbeat clock; progress is bounded progress (40 publish rounds / 8000 heartbeats)", "3/C27")
 
+CHECKS["C28"] = ("exploration", "attribution / convergence monitor over recorded delivery histories: self-identifying values (node index in every written value), concurrent writer clients, add/remove churn on the node monitor, quiescence comparison with the server's node values",
+    "Real server and real client with NodeMonitor channel subscriptions; 1-4 writer connections, 100-1600 unique writes each, nodes added and removed meanwhile in half of the histories; every delivered message must name the node its value was written to, and within 6000 heartbeats of the last write the last delivered value per monitored node equals the node's value.",
+    "late 'handle not found' messages for just-removed nodes are counted, not attributed; histories with monitor-reported drops are inconclusive", "3/C28")
+
 NOT_YET = {}
 
 
